@@ -7,6 +7,11 @@ import sys
 import time
 import traceback
 
+try:
+    sys.set_int_max_str_digits(0)
+except AttributeError:  # pragma: no cover
+    pass
+
 REPO = os.environ.get("VERIF_REPO", "/repo")
 HOME = os.environ.get("VERIF_HOME", os.path.dirname(os.path.dirname(os.path.abspath(__file__))))
 
